@@ -15,7 +15,7 @@ from . import core
 from .core import Hooks, VerifCrash
 from .programs import build_decoy, build_workflow, task_class_name
 from .project import HARNESS_DDL, Projector
-from .vtask import LEDGER, VerifTask
+from .vtask import make_task, LEDGER, VerifTask
 
 
 def view_hash(view: dict) -> str:
@@ -97,7 +97,7 @@ class Run:
         reg = TaskRegistry()
         for sd in self.prog["stages"]:
             for td in sd["tasks"]:
-                reg.register(task_class_name(td["name"]), VerifTask(td["name"]))
+                reg.register(task_class_name(td["name"]), make_task(td))
                 reg.register_verifier("vverif", __import__("harness.vtask", fromlist=["vverif"]).vverif)
         b, c = core.shared_resilience()
         cfg = QueueProcessorConfig.from_handler_config(None)
